@@ -31,63 +31,93 @@ def exh_cfg(family, N, D, P, subs=1, works=(1, 2)):
                invariants=inv, properties=props)
 
 
-def gen_cfg(N, D, P, subs, depth, ops, works=(1, 2)):
+def gen_cfg(N, D, P, subs, depth, ops, works=(1, 2), lean=True):
     return cfg({"N": N, "Works": set(works), "MaxDepth": D, "P": P, "MaxSubs": subs, "Depth": depth,
-                "Ops": {q(o) for o in ops}}, spec="GSpec", invariants=["Emit"])
+                "Ops": {q(o) for o in ops}, "Lean": lean, "Script": "ScriptNone"}, spec="GSpec",
+               invariants=["Emit"]).replace("Script = ScriptNone", "Script <- TheScript")
+
+
+def script_module(script):
+    return ("---- MODULE HCRun ----\nEXTENDS HeaderChainGen\nTheScript == <<%s>>\n====\n" %
+            ",".join(q(k) for k in script))
 
 
 # Per-property plans. exh: list of (family, N, D, P, subs); gens: list of dicts; runs: harness runs per gen
 def plan(prop, tier):
     quick = tier == "quick"
-    num = 500 if quick else 6000
+    num = int(os.environ.get("VERIF_NUM", "0")) or (800 if quick else 8000)
 
     def g(N=6, D=1, P=2, subs=0, depth=12, ops=("submit", "clean", "save", "load"), n=num, S=(1, 3), big=None,
-          flags=()):
-        return dict(N=N, D=D, P=P, subs=subs, depth=depth, ops=ops, num=n, S=S, big=big, flags=list(flags))
+          flags=(), works=(1, 2), lean=True):
+        return dict(N=N, D=D, P=P, subs=subs, depth=depth, ops=ops, num=n, S=S, big=big, flags=list(flags),
+                    works=works, lean=lean)
 
+    def sc(script, N=4, D=4, P=4, subs=0, works=(1, 2), S=(1, 3), flags=(), lean=True):
+        """bounded-exhaustive scenario family: all trees over N blocks, all orders, the scripted step kinds"""
+        return dict(N=N, D=D, P=P, subs=subs, depth=len(script), ops=(), num=0, S=S, big=None, flags=list(flags),
+                    works=works, lean=lean, script=list(script))
+
+    G = "grow"
     maint_ops = ("submit", "clean", "save", "load")
     if prop == "C01":
         exh = [("core", 4 if quick else 5, 1, 2, 1), ("maint", 4, 1, 2, 1)]
-        gens = [g(D=1, P=2, ops=maint_ops, big=400), g(D=2, P=3, ops=maint_ops), g(D=0, P=2, ops=maint_ops),
+        gens = [g(D=1, P=2, ops=maint_ops, big=400), g(D=2, P=3, ops=maint_ops, works=(1, 3)),
+                g(N=5, D=2, P=2, depth=9, ops=("submit", "clean"), works=(1, 2, 3)),
+                g(D=0, P=2, ops=maint_ops, n=num // 2),
                 g(N=7, D=1, P=1, depth=14, ops=("submit", "clean"))]
+        gens += [sc([G, G, G, G, "clean", "save", "load"]), sc([G, G, "clean", G, G], works=(1, 3)), sc([G, G, G, "save", "load", G, "clean"], D=1, P=1)]
     elif prop == "C07":
         exh = [("core", 4, 1, 2, 2)] + ([] if quick else [("core", 5, 1, 2, 1)])
         gens = [g(D=1, P=2, subs=2, ops=("submit", "subscribe", "clean"), big=400),
-                g(D=2, P=3, subs=2, ops=("submit", "subscribe", "clean", "save")),
+                g(D=2, P=3, subs=2, ops=("submit", "subscribe", "clean", "save"), works=(1, 3)),
+                g(N=5, D=2, P=2, subs=1, depth=8, ops=("submit", "subscribe"), works=(1, 2, 3)),
+                g(N=5, D=1, P=2, subs=1, depth=8, ops=("submit", "subscribe")),
                 g(N=7, D=2, P=3, subs=1, depth=14, ops=("submit", "subscribe"))]
+        gens += [sc(["subscribe", G, G, G, G], subs=1), sc([G, "subscribe", G, G, G, "subscribe"], subs=2, works=(1, 3)), sc([G, G, "subscribe", "clean", G, G], subs=1, D=1, P=2)]
     elif prop == "C08":
         exh = [("core", 4, d, 2, 1) for d in (0, 1, 2)] + ([] if quick else [("core", 5, 1, 2, 1)])
-        gens = [g(D=d, P=max(2, d), ops=("submit", "clean", "save"), flags=["-twin"], big=(400 if d == 1 else None))
-                for d in (0, 1, 2)] + [g(D=6, P=6, ops=("submit", "clean"), flags=["-twin"])]
+        gens = [g(D=d, P=max(2, d), ops=("submit", "clean", "save"), flags=["-twin"], big=(400 if d == 1 else None),
+                  lean=False)
+                for d in (0, 1, 2)] + [g(D=6, P=6, ops=("submit", "clean"), flags=["-twin"]),
+                                       g(N=5, D=1, P=2, depth=9, ops=("submit",), flags=["-twin"], lean=False)]
+        gens += [sc([G, G, G, "submit", "submit"], D=0, P=2, flags=["-twin"], lean=False), sc([G, G, G, "submit", "submit"], D=1, P=2, flags=["-twin"], lean=False), sc([G, G, "clean", "submit", "submit"], D=1, P=1, flags=["-twin"], lean=False)]
     elif prop == "C09":
         exh = [("maint", 4, 1, 2, 1)]
         gens = [g(D=1, P=1, ops=maint_ops, big=400), g(D=1, P=2, ops=maint_ops, S=(1, 3, 7)),
                 g(D=2, P=2, ops=maint_ops), g(N=7, D=2, P=3, depth=14, ops=("submit", "clean"))]
+        gens += [sc([G, G, G, G, "clean", "save", "load"], D=1, P=1), sc([G, G, G, G, "clean"], D=2, P=2, works=(1, 3)), sc([G, G, "clean", G, G, "clean"], D=4, P=1)]
     elif prop == "C10":
         exh = [("maint", 4, 1, 2, 1), ("maint", 4, 2, 2, 1)]
         gens = [g(D=1, P=2, ops=("submit", "clean"), big=400), g(D=2, P=2, ops=("submit", "clean"), S=(1, 3, 7)),
                 g(D=1, P=1, ops=("submit", "clean", "subscribe"), subs=1),
                 g(N=7, D=2, P=3, depth=14, ops=("submit", "clean"))]
+        gens += [sc([G, G, G, G, "clean"]), sc([G, G, G, "clean", G, "clean"], D=1, P=1), sc([G, G, "clean", G, G, "clean"], works=(1, 3), P=2)]
     elif prop == "C11":
         exh = [("maint", 4, 1, 2, 1), ("mark", 3, 3, 2, 1)]
         gens = [g(D=1, P=2, ops=maint_ops, big=400), g(D=2, P=3, ops=maint_ops, S=(1, 3, 7)),
                 g(D=1, P=1, ops=("submit", "save", "load")),
                 g(D=6, P=6, ops=("submit", "save", "load", "mark"))]
+        gens += [sc([G, G, G, G, "save", "load"]), sc([G, G, G, "save", "load", G, "save", "load"], D=1, P=1), sc([G, G, "clean", G, G, "save", "load"], works=(1, 3), P=2), sc([G, G, G, "mark", "save", "load", "submit"], lean=False)]
     elif prop == "C12":
         exh = [("maint", 4, 1, 2, 1)]
         gens = [g(D=1, P=2, ops=("submit", "clean", "save", "reload"), flags=["-crash"], big=400),
                 g(D=2, P=3, ops=("submit", "clean", "save", "reload"), flags=["-crash"]),
                 g(D=1, P=1, ops=("submit", "clean", "save", "load", "reload"), flags=["-crash"])]
+        gens += [sc([G, G, G, "save", G, "clean"], flags=["-crash"]), sc([G, G, "clean", G, G, "save"], flags=["-crash"], D=1, P=1), sc([G, G, G, G, "clean", "reload"], flags=["-crash"])]
     elif prop == "C17":
         exh = [("mark", 3, 3, 2, 1)] + ([] if quick else [("mark", 4, 4, 2, 1)])
         gens = [g(D=6, P=6, ops=("submit", "mark", "save", "load")),
                 g(D=6, P=6, ops=("submit", "mark", "clean"), S=(1, 3)),
+                g(N=5, D=5, P=5, depth=10, ops=("submit", "mark", "clean")),
+                g(N=4, D=4, P=4, depth=8, ops=("submit", "mark", "clean", "save"), works=(1, 2, 3)),
                 g(N=5, D=5, P=5, depth=10, ops=("submit", "mark"))]
+        gens += [sc([G, G, G, G, "clean", "mark", "save", "load"]), sc([G, G, G, G, "mark", "submit", "unmark", "submit"], lean=False), sc([G, G, G, "save", "mark", G, "save", "load"], works=(1, 3))]
     elif prop == "C19":
         exh = [("core", 4, 1, 2, 1)]
         gens = [g(D=1, P=2, ops=maint_ops, flags=["-probe"], S=(1, 3, 7)),
                 g(D=2, P=3, ops=("submit", "clean"), flags=["-probe"], S=(1, 3)),
                 g(D=1, P=1, ops=maint_ops, flags=["-probe"], S=(1, 7))]
+        gens += [sc([G, G, G, G, "clean"], flags=["-probeend"], S=(1, 7)), sc([G, G, G, G], flags=["-probeend"], S=(1, 3), works=(1, 3)), sc([G, G, "clean", G, G], flags=["-probeend"], D=1, P=1, S=(1, 7))]
     else:
         raise Infra("no header plan for " + prop)
     if not quick:
@@ -98,9 +128,27 @@ def plan(prop, tier):
 
 
 def generate(scratch, gc, s, idx):
-    """One TLC simulation run -> list of behaviour JSON strings."""
-    out, st = run_tlc(scratch, "HeaderChainGen",
-                      gen_cfg(gc["N"], gc["D"], gc["P"], gc["subs"], gc["depth"], gc["ops"]),
+    """One TLC run (random simulation, or BFS over a scripted scenario family) -> behaviour JSON strings."""
+    if gc.get("script"):
+        sc = gc["script"]
+        kinds = {"grow": "submit", "any": None}
+        ops = set(gc["ops"]) | {kinds.get(k, k) for k in sc if kinds.get(k, k)}
+        ops.discard("unmark")
+        if "unmark" in sc:
+            ops.add("mark")
+        out, st = run_tlc(scratch, "HCRun", gen_cfg(gc["N"], gc["D"], gc["P"], gc["subs"], len(sc), sorted(ops),
+                                                    gc.get("works", (1, 2)), gc.get("lean", True)),
+                          files={"HCRun.tla": script_module(sc)}, workers=1, timeout=1800, name="scr%d" % idx)
+        if st.get("error") or st.get("violation") or "Model checking completed" not in out:
+            raise Infra("scripted generation failed: %s\n%s" % (st, out[-2000:]))
+        behs = printed(out, "BEH")
+        if not behs:
+            raise Infra("scripted generation produced nothing:\n" + out[-2000:])
+        return behs
+    out, st = run_tlc(scratch, "HCRun",
+                      gen_cfg(gc["N"], gc["D"], gc["P"], gc["subs"], gc["depth"], gc["ops"], gc.get("works", (1, 2)),
+                              gc.get("lean", True)),
+                      files={"HCRun.tla": script_module([])},
                       workers=1, simulate=gc["num"], depth=gc["depth"] + 2, tlc_seed=s, timeout=1200,
                       name="gen%d" % idx)
     if st.get("error") or st.get("violation"):
@@ -112,7 +160,8 @@ def generate(scratch, gc, s, idx):
 
 
 def bfs_generate(scratch, N, D, P, subs, depth, ops, idx):
-    out, st = run_tlc(scratch, "HeaderChainGen", gen_cfg(N, D, P, subs, depth, ops), workers=1, timeout=3000,
+    out, st = run_tlc(scratch, "HCRun", gen_cfg(N, D, P, subs, depth, ops, lean=False),
+                      files={"HCRun.tla": script_module([])}, workers=1, timeout=3000,
                       name="bfs%d" % idx)
     if st.get("error") or st.get("violation"):
         raise Infra("bounded-exhaustive generation failed: %s\n%s" % (st, out[-2000:]))
@@ -194,7 +243,7 @@ def run(prop, tier):
                         "-workers", str(NCPU), "-in", p] + gc["flags"] + ([extra] if extra else [])
                 env = {}
                 locout = None
-                if "-probe" in gc["flags"]:
+                if "-probe" in gc["flags"] or "-probeend" in gc["flags"]:
                     locout = os.path.join(scratch, "loc_%d_%d.ndjson" % (i, S))
                     env["VERIF_LOCOUT"] = locout
                 rc, out, err = run_harness(binary, args, env=env, timeout=3000)
